@@ -1142,7 +1142,7 @@ fn run_cases(s: &mut Session, rng: &mut Rng, n: usize) {
         if let Ok((out, progress_ok, rounds, terminated)) = &real {
             s.oracle("round-applies-a-new-uri", *progress_ok, || req.clone(), || shown.clone());
             s.oracle("extension-terminates", *terminated && *rounds <= server.len(), || req.clone(), || format!("rounds={rounds} server={} {shown}", server.len()));
-            s.count(&format!("run:rounds{}", rounds.min(6)));
+            s.count(&format!("run:rounds{}", (*rounds).min(6)));
             s.count(&format!("run:end:{}", out.last().map(|x| x.split(':').take(2).collect::<Vec<_>>().join(":")).unwrap_or_default().chars().take(40).collect::<String>()));
         }
         s.case("run", req, shown);
